@@ -46,6 +46,17 @@ CLAIMED = {
         "leaf applied) over all complete executions up to a bound before/after, check_consistency and node count. The Coq theorem C15_sem (simulation both ways) "
         "is not closed yet, hence the level is not claimed as proof.",
    note=TB + "Modelled: coq/GraphOps.v.", ref="5/C15"),
+ "C09": dict(cat="other", tech="model-implementation correspondence from the regex AST + re.fullmatch oracle; Coq language-membership theorem in progress",
+   text="Executable Coq model of regex/parse.py (tree converters, _repeat, optimize, wrapping) from the AST, with the specification relation matches; tied to the "
+        "implementation by printing random ASTs of the dialect to concrete syntax, parsing them with the real lark parser and comparing canonical graph dumps, entries "
+        "and samples; oracle: every sample labelled valid and matched in full by Python re, every literal / class member / range end used. The structural-induction "
+        "theorem (every complete execution of the generated graph yields a string in L(r)) is not closed yet, so proof level is not claimed.",
+   note=TB + "Modelled: coq/Regex.v from the AST; the LALR parser and unescape() only through the correspondence.", ref="5/C09"),
+ "C20": dict(cat="proof", tech="Coq proof of the length bounds for every pattern/graph/fuel + correspondence with core/random.py",
+   text="C20_length: whenever the model of generate_random_string returns a string its length is within [min, max] for all min, max >= min or absent, all patterns, "
+        "any fuel and either code variant; C20_contract: the assert can only fire outside the contract. The 'contains a match of the pattern' half depends on the "
+        "C09 theorem (in progress) and is currently decided by the re.search oracle and the correspondence stream RS.",
+   note=TB + "Modelled: coq/Regex.v (gen_random_string).", ref="5/C20"),
 }
 
 NOT_YET = {}
